@@ -99,7 +99,9 @@ class C41(Prop):
     level_note = (
         "Theorems are over exact rational arithmetic: floating-point rounding of the table "
         "(floor division next to grid lines, the 1e-13/1e-10 assertion bands) is covered only "
-        "by the tie on dyadic data. Scalar-valued functions (dim=1) only. The rounding "
+        "by the tie on dyadic data. Theorems are for scalar-valued tables; vector-valued tables "
+        "(dim 2-3) are covered by the tie component by component (a table with dim>1 is "
+        "compared with dim scalar model tables sharing the grid). The rounding "
         "safeguard of quadrature_points_from_coordinates (extra stored vertices when a point "
         "is within 0.001 cell of the next grid line) is not modelled: it only adds stored "
         "vertices that the query formula never reads; the number of stored vertices is "
@@ -110,17 +112,24 @@ class C41(Prop):
     technique = ("Coq proof (induction on the dimension over Q, column-major index lemma, "
                  "invariant of the lazily filled store) + vm_compute execution correspondence")
     rule = ("random dimension 1-4, resolutions 2-5 per axis, dyadic boxes (85% with dyadic "
-            "mesh size), multilinear coefficient tables with integer coefficients in [-5,5] "
+            "mesh size) times one exact power-of-two scale 2^-12..2^12 (function scaled "
+            "inversely), boxes up to 2^8 cells away from the origin or anchored at the origin "
+            "(adaptive table then built with the default base point), scalar and vector-valued "
+            "(dim 2-3) multilinear coefficient tables with integer coefficients in [-5,5] "
             "(half of them affine), batches of 5-8 query points: cell interiors, interior grid "
             "lines, lower faces, UPPER faces and the upper corner (forced in every in-box case), "
-            "points within 1/1024 cell of the next grid line, and cases with a point outside the "
-            "box (ValueError); adaptive table queried point by point (interpolate + gradients); "
+            "points within 1/1024 cell of the next grid line, points one ulp inside the faces, "
+            "cases with a point outside the box incl. one ulp outside (ValueError); the first "
+            "point also handed over as a 1-D array; query arrays checked unmodified; "
+            "adaptive table queried point by point (interpolate + gradients), its exceptions "
+            "recorded as results; "
             "non-trivial = some query point lies on an upper face; distinct by (case, output)")
     trusted = ["float64 evaluation of the generated multilinear functions on dyadic grids is "
                "exact; outputs compared with |impl-model| <= 1e-9(1+|model|) inside Coq",
                "numpy floor division // on floats = floor of the exact quotient (dyadic data)"]
     assumptions = ["low < high and npt >= 2 on every axis (h=0 / a one-point axis divides by zero "
-                   "in the code)", "scalar-valued table (dim=1)"]
+                   "in the code)", "mesh sizes between 2^-15 and 2^15 (well above the absolute 1e-10 "
+                   "coordinate tolerance of the adaptive table)"]
 
     # ---------------------------------------------------------------- generation
     def _grid(self, rng):
